@@ -273,7 +273,7 @@ def crlb_term(c, out, b):
     n, p, nx = c["n"], c["p"], c["nx"]
     J = np.asarray(c["J"][b], complex)
     W = Wb(c, b)
-    lets = "let J := %s in let W := %s in let s := %s in " % (
+    lets = "let J : mat F := %s in let W : option (vec F) := %s in let s : F := %s in " % (
         cmat(J), "None" if W is None else "(Some %s)" % rvec(W), rq(c["sigma2"]))
     parts = ["inv_ok_b (F:=F) minv_adj %d (fisher (F:=F) %d %d s J)" % (p, n, p),
              "qc_close %s %s (crlb (F:=F) minv_adj %d %d J W s)" % (TOL, rq(out["cost"][b]), n, p),
@@ -295,7 +295,7 @@ def confint_term(c, out, b, spec=False):
     sw = "false false" if spec else "confint_hess_outer confint_hess_plus"
     lvl = Fraction(repr(c["level"]))
     tf = core.frac(out["tval"])
-    lets = "let J := %s in let H := %s in let obs := %s in let pred := %s in " % (
+    lets = "let J : mat F := %s in let H : option (ten3 F) := %s in let obs : vec F := %s in let pred : vec F := %s in " % (
         cmat(J), "None" if H is None else "(Some %s)" % cten(H), cvec(np.asarray(c["obs"][b], complex)),
         cvec(np.asarray(c["pred"][b], complex)))
     items = []
@@ -309,7 +309,7 @@ def confint_term(c, out, b, spec=False):
                 sq = core.frac(v) ** 2
                 items.append("(qc_close %s %s (tq * tq * %s)%%K && (qc_pos %s || Qeq_bool 0 %s))" % (
                     TOL, rq_frac(sq), mv, mv, core.qlit(sq)))
-    body = "inv_ok_b (F:=F) minv_adj %d (confint_info (F:=F) %s %d %d J H (residual %d obs pred)) && %s" % (
+    body = "inv_ok_b (F:=F) minv_adj %d (confint_info (F:=F) %s %d %d J H (residual (F:=F) %d obs pred)) && %s" % (
         p, sw, n, p, n, " && ".join(items))
     return ("(match tstat_lookup (%d # %d) %d with Some t => Qeq_bool t %s && (let tq : F := (Q2Qc t, Q2Qc 0) in %s %s) | None => false end)"
             % (lvl.numerator, lvl.denominator, n - p, core.qlit(tf), lets, body))
@@ -330,10 +330,10 @@ def run_ttable(ctx, nentries):
             f.write("Goal length tstat_table = %d%%nat. Proof. reflexivity. Qed.\n" % nentries)
             for i in mine:
                 f.write("Lemma ttab_%d : tstat_entry_ok (nth %d tstat_table dflt).\nProof. t_entry %d%%nat. Qed.\n" % (i, i, i))
-                f.write("Goal True. idtac \"TT-OK\" %d%%nat. exact I. Qed.\n" % i)
+                f.write("Goal True. idtac \"TT-OK\" %d. exact I. Qed.\n" % i)
         files.append(path)
         members[path] = mine
-    res = core.coqc_many(files, timeout=600)
+    res = core.coqc_many(files, timeout=240)
     ctx._case_files += files
     ok, bad = set(), {}
     for path in files:
@@ -351,7 +351,7 @@ def run_ttable(ctx, nentries):
                 with open(p1, "w") as f:
                     f.write(THEADER + "Lemma ttab_%d : tstat_entry_ok (nth %d tstat_table dflt).\nProof. t_entry %d%%nat. Qed.\n" % (i, i, i))
                 singles.append((i, p1))
-            r1 = core.coqc_many([p for _, p in singles], timeout=300)
+            r1 = core.coqc_many([p for _, p in singles], timeout=60)
             ctx._case_files += [p for _, p in singles]
             for i, p1 in singles:
                 if r1[p1][0] == 0:
@@ -564,7 +564,7 @@ def run(ctx):
     ctx.notes["ttable"] = {"entries": nent, "proved": len(tok), "failed": sorted(tbad)}
     for i, msg in sorted(tbad.items()):
         ent = entries[i] if entries and 0 <= i < len(entries) else None
-        ctx.report("TSTAT_INTERVAL entry %s is not the Student-t quantile: |2 c_nu Int_0^t (1+x^2/nu)^(-(nu+1)/2) dx - level| <= 1e-10 not provable"
+        ctx.report("TSTAT_INTERVAL entry %s is not the Student-t quantile: |2 c_nu Int_0^t (1+x^2/nu)^(-(nu+1)/2) dx - level| <= 1e-8 not provable"
                    % (ent,), {"ttable_entry": ent, "index": i, "coq_output": msg,
                               "theorem_or_correspondence": "tstat_entry_ok (Interval)"},
                    found_input=ent is not None, signature={"function": "get_tstat_interval", "entry": list(ent[:2]) if ent else None})
